@@ -444,6 +444,17 @@ func (w *World) EnvReown(k Key, foreign bool) bool {
 	})
 }
 
+// EnvLegacyManager makes the object look as if it was last written by a pre-server-side-apply version of the operator
+// (or by a plain update / merge patch of one of its managers): a managedFields entry of operation Update.
+func (w *World) EnvLegacyManager(k Key) bool {
+	return w.EnvMutate("EnvLegacyManager", k, map[string]any{}, func(m map[string]any) {
+		metaOf(m)["managedFields"] = []any{map[string]any{
+			"manager": "package-operator", "operation": "Update", "apiVersion": getStr(m, "apiVersion"), "time": "2024-01-01T00:00:00Z",
+			"fieldsType": "FieldsV1", "fieldsV1": map[string]any{"f:metadata": map[string]any{"f:labels": map[string]any{"f:" + cacheLbl: map[string]any{}}}},
+		}}
+	})
+}
+
 func (w *World) EnvEditContent(k Key, tag string) bool {
 	return w.EnvMutate("EnvEdit", k, map[string]any{"tag": tag}, func(m map[string]any) {
 		switch k.Kind {
